@@ -288,7 +288,13 @@ def main():
 
     # ---- extended search when the tie is broken but no failing input yet
     tie_broken = bool(lean_fail or disagreements)
-    if tie_broken and not violations and tier == 'quick' and os.path.exists(common.EVDRV):
+    known = [k for k in load_known() if k.get('property') == pid and 'fixed' not in k]
+
+    def is_known(v):
+        return any(getattr(importlib.import_module(f'harness.suites.{k["suite"]}'), 'matches_known')(v, k) for k in known)
+    # (violations of the shape of a recorded finding are no failing input for a NEW break of the tie)
+    if tie_broken and not [v for _m, v in violations if not is_known(v)] and tier == 'quick' \
+            and os.path.exists(common.EVDRV):
         log('tie broken and no failing input yet: extended search (thorough budget, next seed, at most 6 minutes)')
         os.environ['VERIF_DEADLINE'] = str(time.time() + 360)
         try:
@@ -298,7 +304,6 @@ def main():
             harness_errors.append(traceback.format_exc())
 
     # ---- known findings
-    known = [k for k in load_known() if k.get('property') == pid and 'fixed' not in k]
     known_lines = []
     for k in known:
         mod = importlib.import_module(f'harness.suites.{k["suite"]}')
@@ -316,8 +321,7 @@ def main():
             known_lines.append(f'KNOWN-FINDING: property={pid} {k["what"]}')
     new_violations = []
     for m, v in violations:
-        if any(getattr(importlib.import_module(f'harness.suites.{k["suite"]}'), 'matches_known')(v, k)
-               for k in known):
+        if is_known(v):
             continue
         new_violations.append(v)
 
